@@ -50,7 +50,7 @@ fn inits(n: usize, full_sym: bool) -> Vec<String> {
     for i in 0..n {
         v.push(format!("var:{}", i));
     }
-    for k in (0..=n + 2).chain([63usize, 64, 65, 66, 127, 128, usize::MAX - 1, usize::MAX]) {
+    for k in (0..=n + 2).chain([31usize, 32, 33, 63, 64, 65, 66, 127, 128, 255, 256, 1 << 16, (1 << 16) + 1, 1 << 31, (1 << 32) - 1, 1 << 32, (1 << 32) + 1, (1 << 32) + 2, (1usize << 32) + n, 1 << 33, (1 << 33) + 1, (1usize << 40) + 64, 1 << 63, (1usize << 63) + 1, usize::MAX - 64, usize::MAX - 1, usize::MAX]) {
         v.push(format!("thr:{}", k));
         v.push(format!("eq:{}", k));
     }
@@ -129,9 +129,39 @@ pub fn explore_all(run: &Run) {
     }
 }
 
+/// Beyond the sizes of the stated quantifier: a few constructor calls on large dynamic tables
+/// (the statement itself is not bounded in n; kernels index tables by the popcount of the word index).
+fn large_sizes(run: &Run) {
+    let prof = run.profile;
+    let sizes: Vec<usize> = if run.thorough() { vec![15, 16, 17, 18, 19, 20, 21, 22, 23, 24] } else { vec![15, 16, 18, 20, 22] };
+    let mut cases: Vec<(usize, String)> = Vec::new();
+    for n in sizes {
+        for init in ["parity".to_string(), "majority".to_string(), format!("eq:{}", n / 2), format!("eq:{}", n), format!("thr:{}", n - 1), format!("sym:{}", 0x2d2d_2d2dusize & ((1usize << (n + 1)) - 1)), format!("var:{}", n - 1), "one".to_string()] {
+            cases.push((n, init));
+        }
+    }
+    let total = cases.len() as u64;
+    run.section(&format!("CONSTRUCTORS large dynamic tables n=15..24 ({} profile): parity/majority/equals/threshold/symmetric/nth_var/one", prof), false, "a handful of argument tuples per size, every assignment compared with the popcount definition", total, 1, |r, l| {
+        for k in r {
+            let (n, init) = &cases[k as usize];
+            l.states += 1;
+            l.transitions += 1;
+            l.validated += 1;
+            match check_one::<volute::Lut>(*n, init) {
+                Ok(h) => {
+                    l.nontrivial += 1;
+                    l.digest ^= crate::engine::mix3(hash_str(init), *n as u64, h);
+                }
+                Err(v) => l.violation(format!("{:02}|D|{}|{}", n, prof, init), "C11/Lut/large-n", case_str(prof, false, *n, init), v.0, v.1),
+            }
+        }
+    });
+}
+
 pub fn run(run: &Run) {
     run.set_rule("state = one constructor call with concrete arguments (per type, per build profile); transition = the call; the successor is compared on every assignment with the popcount definition; every call is counted non-trivial (each is a distinct argument tuple)");
     run.assume("reference model: definitions by popcount of the assignment (props::hist::init_model)");
     explore_all(run);
+    large_sizes(run);
     child_run(run, &[]);
 }
